@@ -35,6 +35,42 @@ fn parse_via_item(s: &str) -> Result<DateTime<FixedOffset>, chrono::ParseError> 
     p.to_datetime()
 }
 
+/// Histories of length two on one thread: strings that are rejected at different depths of the grammar, valid
+/// strings, zone names and the military letters they start with, and renderings at +X / -X, in every order.
+fn history_pairs(acc: &mut Acc) {
+    let texts: [(&str, Option<(i64, i32)>); 14] = [
+        ("Wed, 18 Feb 2015 23:16:09 +0000", Some((1_424_301_369, 0))),
+        ("18 Feb 2015 23:16 +0000", Some((1_424_301_360, 0))),
+        ("Wed, 18 Feb 2015 23:16:09 +0000 trailing", None),
+        ("Wed, 18 Feb 2015 23:16:09", None),
+        ("Thu, 18 Feb 2015 23:16:09 +0000", None),
+        ("Wed, 18 Feb 2015 23:16:09 PST", Some((1_424_330_169, -28_800))),
+        ("Wed, 18 Feb 2015 23:16:09 P", Some((1_424_301_369, 0))),
+        ("Wed, 18 Feb 2015 23:16:09 MDT", Some((1_424_322_969, -21_600))),
+        ("Wed, 18 Feb 2015 23:16:09 MD", None),
+        ("Wed, 18 Feb 2015 23:16:09 M", Some((1_424_301_369, 0))),
+        ("Wed, 18 Feb 2015 23:16:09 +0530", Some((1_424_281_569, 19_800))),
+        ("Wed, 18 Feb 2015 23:16:09 -0530", Some((1_424_321_169, -19_800))),
+        ("Wed, 18 Feb 2015 25:16:09 +0000", None),
+        ("Wed, 30 Feb 2015 23:16:09 +0000", None),
+    ];
+    for &i in &pair_order(texts.len()) {
+        let (t, want) = texts[i];
+        acc.transitions += 2;
+        let got = guard(|| DateTime::parse_from_rfc2822(t).ok().map(|d| (d.timestamp(), d.offset().local_minus_utc())));
+        let got2 = guard(|| parse_via_item(t).ok().map(|d| (d.timestamp(), d.offset().local_minus_utc())));
+        if got != Ok(want) || got2 != Ok(want) {
+            acc.violation("parse_from_rfc2822:history", format!("DateTime::parse_from_rfc2822({:?}) after another string was read", t), format!("{:?}", want), format!("{:?} / {:?}", got, got2));
+        }
+    }
+    let mut buf = String::with_capacity(64);
+    let outs: [(i64, u32, u32, i32); 8] = [(16_484, 83_769, 0, 19_800), (16_484, 83_769, 0, -19_800), (16_484, 83_769, 0, 0), (16_484, 83_769, 1_000_000_000 - 1_000_000_000, 3600), (16_485, 59, 0, -3600), (10_957, 86_399, 1_000_000_000, 0), (10_957, 86_399, 0, 720), (10_957, 86_399, 0, -720)];
+    for &i in &pair_order(outs.len()) {
+        let (z, s, f, o) = outs[i];
+        output_one(acc, z, s, f, o, &mut buf);
+    }
+}
+
 fn case_variant(s: &str, k: usize) -> String {
     match k {
         0 => s.to_string(),
@@ -314,6 +350,9 @@ fn main() {
     let nbd = ((bd.len() + 15) / 16) as u64;
     let acc = explore_units(n_out + nb * nzs + nbd, CLASSES.len(), only, |u, acc| {
         let mut buf = String::with_capacity(64);
+        if u == 0 {
+            history_pairs(acc);
+        }
         if u < n_out {
             let y0 = u as i64 * YCH;
             let z0 = days_from_civil(y0, 1, 1);
